@@ -291,6 +291,8 @@ def run_c20(chk, prog):
         cl = rec[6][1] if len(rec[6]) > 1 else None
         if cl is not None and cl[0] == "closure":
             closure_defs.add(cl[1])
+        elif cl is not None and cl[0] == "fn" and cl[1][0] in prog.fns:
+            closure_defs.add(cl[1][0])       # a named private function passed instead of a closure literal
         else:
             chk.unproven("C20.O1", "cp:closure-arg", "the argument of reconfigure is not a closure literal (%s)" % (fmt_term(cl) if cl else "?"), where)
         d0 = known_val(cons, ("discr", norm(rec[3])))
@@ -305,15 +307,18 @@ def run_c20(chk, prog):
         okt = norm(st[2][1]) == norm(("sym", "timeout", "?"))
         chk.ob("C20.O3", "set_timeout receives the caller's timeout unchanged", okt, key="cp:timeout-arg", where=where, detail=fmt_term(st[2][1]))
         d1 = known_val(cons, ("discr", norm(st[3])))
+        if d1 is None and norm(p.value) == norm(st[3]) and d0 == 0 and len(names) == 2:
+            chk.ob("C20.O2", "the result of set_timeout is returned as it is (its error, or Ok(()))", True, where=where)
+            continue
         if d1 == 1:
             ok = rk == "Err" and is_err_of(rv, st[3]) and len(names) == 2
             chk.ob("C20.O2", "a set_timeout error is returned", ok, key="cp:timeout-err", where=where, detail=fmt_term(p.value))
         else:
             ok = rk == "Ok" and len(names) == 2 and d0 == 0 and d1 == 0
             chk.ob("C20.O2", "Ok(()) only after reconfigure and set_timeout both succeeded", ok, key="cp:ok-path", where=where, detail="%s -> %s" % (names, fmt_term(p.value)))
-    chk.floor("C20.O2", "configure_port returning paths", nret, 3)
+    chk.floor("C20.O2", "configure_port returning paths", nret, 2)
     # ---- the closure ---------------------------------------------------------------------------
-    cfs = [f for f in closures if f["path"] in closure_defs]
+    cfs = [f for f in closures if f["path"] in closure_defs] + [prog.fns[pth] for pth in closure_defs if pth in prog.fns and prog.fns[pth] not in closures]
     if len(cfs) != 1:
         chk.ob("C20.O1", "the reconfigure closure is a closure of configure_port (found %d)" % len(cfs), False, key="cp:closure-anchor", where=where)
     for cf in cfs:
